@@ -43,6 +43,16 @@ for _op in ("addps", "subps", "mulps", "divps", "andps", "orps", "xorps", "andnp
     SSE += [("%s %%xmm1, %%xmm2" % _op, "rr"), ("%s 0x10(%%esi), %%xmm3" % _op, "mr")]
 for _op in ("addss", "subss", "mulss", "divss", "sqrtss", "minss", "maxss", "addsd", "subsd", "mulsd", "divsd", "sqrtsd", "cmpltsd"):
     SSE += [("%s %%xmm1, %%xmm2" % _op, "rr"), ("%s 0x10(%%esi), %%xmm3" % _op, "mr")]
+# register numbers 0 and 7 of each bank (the lists above use 1..3), and the whole shift-by-immediate group 0F 71/72/73 /digit ib,
+# whose only operand is named by the ModRM rm field alone
+for _n in (0, 7):
+    for _op in ("psrlw", "psraw", "psllw", "psrld", "psrad", "pslld", "psrlq", "psllq"):
+        MMX.append(("%s $3, %%mm%d" % (_op, _n), "ri"))
+        SSE.append(("%s $3, %%xmm%d" % (_op, _n), "ri"))
+    SSE += [("psrldq $4, %%xmm%d" % _n, "ri"), ("pslldq $5, %%xmm%d" % _n, "ri")]
+    MMX += [("paddb %%mm%d, %%mm%d" % (_n, 7 - _n), "rr"), ("movq %%mm%d, %%mm%d" % (_n, 7 - _n), "rr"), ("movd %%mm%d, %%eax" % _n, "rr"), ("pxor 0x10(%%esi), %%mm%d" % _n, "mr")]
+    SSE += [("pxor %%xmm%d, %%xmm%d" % (_n, 7 - _n), "rr"), ("movdqa %%xmm%d, %%xmm%d" % (_n, 7 - _n), "rr"), ("movd %%xmm%d, %%ecx" % _n, "rr"), ("addps 0x10(%%esi), %%xmm%d" % _n, "mr"),
+            ("movss %%xmm%d, %%xmm%d" % (_n, 7 - _n), "rr")]
 
 
 def fx_image(key):
@@ -298,7 +308,9 @@ def all_instances(run):
         # one representative per (family, size, form, count class)
         seen, keep = set(), []
         for i in insts:
-            key = (i["family"], i["size"], i["form"], i.get("cc"), i.get("count") if i.get("count") in (0, 1, "cl") else "n")
+            ops = i["text"].split(None, 1)[1].split(", ") if " " in i["text"] else []
+            same = len(ops) == 2 and ops[0] == ops[1]          # op r, r (xor / sub / sbb idioms) is its own class
+            key = (i["family"], i["size"], i["form"], i.get("cc"), i.get("count") if i.get("count") in (0, 1, "cl") else "n", same)
             if key in seen:
                 continue
             seen.add(key)
@@ -314,7 +326,7 @@ def all_instances(run):
 def main(run):
     refs.need("as")
     cpu.exe()
-    run.rule = ("instances: integer core (one per family x size x form x count class in the quick tier) + %d MMX and %d SSE register/memory forms; per instance several states; "
+    run.rule = ("instances: integer core (one per family x size x form x count class x same-register idiom in the quick tier) + %d MMX and %d SSE register/memory forms; per instance several states; "
                 "write probing on each state, read probing on pairs differing in one register, flag, mm/xmm register or memory byte. non-trivial = an exposed dependency that is "
                 "covered; distinct = (read|write, instruction, location kind)" % (len(MMX), len(SSE)))
     run.assumptions = ["this machine's CPU defines the real dependencies; only locations the lifter has names for are observed (GPRs, status flags + DF, mm/xmm registers, memory bytes)",
